@@ -150,7 +150,11 @@ class UnitsAdapter:
             if act in ('mul', 'div') and not d:
                 stypes = {t['name']: t for t in dst['types']}
                 us = [sunits.get(it['sym']), sunits.get(it['of'])]
-                if all(u is not None and tuple(stypes[u['typ']].get('q', (0, 0))) == (0, 0) for u in us):
+                # (not for two units of one type without reference unit: whether QUANTITIES in such units divide by the
+                # ratio of their scales like the units themselves do, or are not convertible, is left open)
+                noref_pair = (us[0] is not None and us[1] is not None and us[0]['typ'] == us[1]['typ']
+                              and stypes[us[0]['typ']]['ref'] == 'NONE')
+                if not noref_pair and all(u is not None and tuple(stypes[u['typ']].get('q', (0, 0))) == (0, 0) for u in us):
                     try:
                         q1, q2 = self.Quantity(1, self.unit(it['sym'])), self.Quantity(1, self.unit(it['of']))
                         qobj = q1 * q2 if act == 'mul' else q1 / q2
